@@ -99,7 +99,9 @@ def run_impl(case):
         # round trip through disk = round trip through memory
         f_disk_rt = F.read(dst, *extra)
         f_mem_rt = F.read(mem_out, *extra)
-        checks["disk_roundtrip_equals_memory_roundtrip"] = (has_nan or bool(f_disk_rt == f_mem_rt)) and elems_of(case, f_disk_rt, classes) == elems_of(case, f_mem_rt, classes)
+        e_disk_rt, e_mem_rt = elems_of(case, f_disk_rt, classes), elems_of(case, f_mem_rt, classes)
+        rt_nan = json.dumps({"f": codec.NAN_BITS}) in json.dumps(e_mem_rt)  # the re-read payload itself may decode to NaN (K1)
+        checks["disk_roundtrip_equals_memory_roundtrip"] = (rt_nan or bool(f_disk_rt == f_mem_rt)) and e_disk_rt == e_mem_rt
         return {"checks": checks}
     except Exception as e:
         return codec.enc_exc(e)
